@@ -6,8 +6,8 @@
   ALG  * the float runtime the code relies on — `struct.pack('>e'/'>f')`, `struct.unpack`, float64 `*`, `/`, `+`, `-`,
          comparisons, `int()`, `float(int)` — modelled by its IEEE-754 meaning: exact result, then `roundBits`
          (round to nearest, ties to even).  That part is trusted (CPython/C runtime), not verified;
-       * `e8m0Enc`/`e8m0Dec` (bitstore_helpers.py:178-188, bits.py:770-774), `mxintEnc`/`mxintDec`
-         (bitstore_helpers.py:191-209, bits.py:776-778), `bfloatEnc`/`bfloatDec` (bitstore_helpers.py:111-119, bits.py:795-810).
+       * `e8m0Enc`/`e8m0Dec` (bitstore_helpers.py:174-185, bits.py:800-804), `mxintEnc`/`mxintDec`
+         (bitstore_helpers.py:188-209, bits.py:806-808), `bfloatEnc`/`bfloatDec` (bitstore_helpers.py:109-117, bits.py:833-849).
   SPEC * `e8m0Spec`, `mxintDecSpec`, `IsNearestEvenInt`/`rneDiv`/`mxintCodeSpec`, `ieeeNarrow` (IEEE conversion).
 -/
 import BitstringModel.Model.Basic
@@ -177,7 +177,7 @@ def unpackIEEE (ebits mbits b : Nat) : Nat :=
 /-- `2.0 ** k` for `-1022 ≤ k ≤ 1023`. -/
 def pow2F64 (k : Int) : Nat := (k + 1023).toNat * 2 ^ 52
 
-/-- `e8m0mxfp2bitstore` (bitstore_helpers.py:178-188): NaN → 0xff, else the index of `f` in
+/-- `e8m0mxfp2bitstore` (bitstore_helpers.py:174-185): NaN → 0xff, else the index of `f` in
     `[float(2 ** x) for x in range(-127, 128)]`, else ValueError.  `list.index` compares with `==`; every list
     element is a non-zero finite float and `f` is not NaN here, so `==` holds exactly when the patterns are equal. -/
 def e8m0Enc (f : Nat) : Except Err Nat :=
@@ -186,7 +186,7 @@ def e8m0Enc (f : Nat) : Except Err Nat :=
   | some i => .ok i
   | none => .error .value
 
-/-- `mxint2bitstore` (bitstore_helpers.py:191-209), statement by statement. -/
+/-- `mxint2bitstore` (bitstore_helpers.py:188-209), statement by statement. -/
 def mxintEnc (f : Nat) : Except Err Nat :=
   if isNaN64 f then .error .value else
   let f := f64Mul f (f64OfInt 64)                       -- f *= 2 ** 6
@@ -207,7 +207,7 @@ def mxintEnc (f : Nat) : Except Err Nat :=
 
 def bswap16 (c : Nat) : Nat := c % 256 * 256 + c / 256 % 256
 
-/-- `bfloat2bitstore` (bitstore_helpers.py:111-119): pack as float32 (OverflowError → ±inf), keep the two most
+/-- `bfloat2bitstore` (bitstore_helpers.py:109-117): pack as float32 (OverflowError → ±inf), keep the two most
     significant bytes (`b[0:2]` of `'>f'`, `b[2:4]` of `'<f'`). -/
 def bfloatEnc (bigEndian : Bool) (f : Nat) : Nat :=
   let b32 := match packIEEE 8 23 f with
@@ -219,13 +219,13 @@ def bfloatEnc (bigEndian : Bool) (f : Nat) : Nat :=
 /-- Two's complement value of an 8-bit code (`_getint`). -/
 def int8 (c : Nat) : Int := if c < 128 then (c : Int) else (c : Int) - 256
 
-/-- `Bits._gete8m0mxfp` (bits.py:770-774): `u = uint − 127; u == 128 → nan; 2.0 ** u`. -/
+/-- `Bits._gete8m0mxfp` (bits.py:800-804): `u = uint − 127; u == 128 → nan; 2.0 ** u`. -/
 def e8m0Dec (code : Nat) : Nat := if code = 255 then f64NaN else pow2F64 ((code : Int) - 127)
 
-/-- `Bits._getmxint` (bits.py:776-778): `float(int8) * 2 ** -6`. -/
+/-- `Bits._getmxint` (bits.py:806-808): `float(int8) * 2 ** -6`. -/
 def mxintDec (code : Nat) : Nat := f64Mul (f64OfInt (int8 code)) (pow2F64 (-6))
 
-/-- `Bits._getbfloatbe/_getbfloatle` (bits.py:795-807): `(self + Bits(16)).floatbe` / `(Bits(16) + self).floatle`. -/
+/-- `Bits._getbfloatbe/_getbfloatle` (bits.py:833-844): `(self + Bits(16)).floatbe` / `(Bits(16) + self).floatle`. -/
 def bfloatDec (bigEndian : Bool) (code : Nat) : Nat :=
   unpackIEEE 8 23 ((if bigEndian then code else bswap16 code) * 65536)
 
